@@ -261,9 +261,11 @@ class World(object):
         t = c.transport
         t.connected = 0
         t.disconnecting = 0
-        c.state = 'disconnected'
         reason = Failure(exc)
+        # Twisted (tcp.BaseClient.connectionLost): first Connection.connectionLost -> protocol.connectionLost, only then
+        # Connector.connectionLost -> state 'disconnected', factory.clientConnectionLost, doStop
         t.protocol.connectionLost(reason)
+        c.state = 'disconnected'
         c.factory.clientConnectionLost(c, reason)
         c.factory.doStop()
 
